@@ -77,6 +77,11 @@ def run_unit(unit, ctx):
     defn = gen_defn(rng, i, ctx["tier"], wraps=wraps)
     while not defn["sensors"]:
         defn = gen_defn(rng, i, ctx["tier"], wraps=wraps)
+    if i % 4 == 1 and defn["control"]:
+        # a control input that is known exactly: process noise of exactly zero
+        defn["process_noise"][rng.choice(sorted(defn["process_noise"]))] = 0.0
+        defn.pop("noise_as", None)
+        R.stats.inc("programs_with_zero_process_noise")
     if wraps:
         # make sure of it: an angle folded into range in one update and one reading, with an inner argument
         # that appears nowhere else (so that it is still intact when the post-CSE simplification runs) and
